@@ -100,6 +100,13 @@ fn interval(c: &Codec, k: i64, ts: &[f64]) -> Result<u64, (String, String)> {
     }
     let step = g1 - g0;
     let u = if c.is_f32 { 2f64.powi(-24) } else { 2f64.powi(-53) };
+    // negative zero is the real number 0: where 0 is a grid point it must be accepted and encode to that point
+    if g0 == 0.0 {
+        let idx = c.enc(-0.0).map_err(|e| (format!("c11:{}:negative-zero-refused", c.name), format!("field {}: encoding -0.0 (the grid point g({}) = 0) failed: {}", c.name, k, e)))?;
+        if idx != k {
+            return Err((format!("c11:{}:negative-zero", c.name), format!("field {}: -0.0 encodes to index {}, the grid point 0 has index {}", c.name, idx, k)));
+        }
+    }
     let mut inside = 0u64;
     let mut last_idx = i64::MIN;
     let mut last_x = f64::NEG_INFINITY;
@@ -687,7 +694,7 @@ pub fn run(ctx: &Ctx, replay: Option<&J>) -> CheckResult {
     let nfloat = FIELDS.iter().filter(|f| f.is_float).count();
     let rule = format!(
         "every float-typed df! field ({} fields) and the three bias codecs (through messages; for 1059/1065 the entry under test follows another entry of the same satellite) x grid index k (both range ends, around zero, powers of two, \
-         seeded random) x t in {{1e-9,1e-6,.1,.25,.49,.499999,.5,.500001,.51,.75,.9,.999999,1-1e-9}} + 3 random t + the grid points themselves (t=0, t=1); input x = g(k)+t*(g(k+1)-g(k)) rounded to the field's \
+         seeded random) x t in {{1e-9,1e-6,.1,.25,.49,.499999,.5,.500001,.51,.75,.9,.999999,1-1e-9}} + 3 random t + the grid points themselves (t=0, t=1) and -0.0 where 0 is a grid point; input x = g(k)+t*(g(k+1)-g(k)) rounded to the field's \
          float type, g = the decoder applied to consecutive patterns (intervals touching the 'absent' marker skipped). oracle: encode(x) is k or k+1, \
          |g(encode(x))-x| <= step/2 + 16u(max|g|,|x| + step) with u=2^-24/2^-53, indexes non-decreasing in x. non-trivial = input strictly between two grid points; \
          distinct = (field,k,t). plus bias lists in caller order: 1230 lists in every ordered arrangement of every subset of its four signals and 1059/1065 lists of 1..=6 satellites x 1..=5 signals in shuffled order, every entry an off-grid value, each entry's decoded value compared with its own input under the same bound; and position independence: list messages (31 types) filled to capacity / capacity-1 / a random length with in-range off-grid values in every float leaf, each element's decoded floats bit-identical to those of the single-element message",
